@@ -348,6 +348,56 @@ def h7(led, rid, ctx):
     led.floor(rid, "interval guards", n, 5)
 
 
+def h8(led, rid, ctx):
+    """SIBLINGS: the lower- and the upper-bound chain search end a chain of profiles on the same gap
+    test (decided on a window over start, end and processing time)"""
+    import itertools
+    from ..predalg import ev, Unknown
+    lib = ctx.lib
+    conds = {}
+    for nm in ("find_index_last_profile_which_propagates_lower_bound",
+               "find_index_last_profile_which_propagates_upper_bound"):
+        f = lib.fn(nm)
+        found = []
+        for bb in f.cfg.edges:
+            for fa in edge_facts(f, bb):
+                rf = rel_fact(fa)
+                if rf and rf[0] in ("Ge", "Gt", "Le", "Lt") and fa.val and \
+                        ("processing_time" in rf[1].fields() or "processing_time" in rf[2].fields()):
+                    found.append((rf, f.blocks[bb]["line"]))
+        if not found:
+            raise AnchorMissing("gap test against processing_time in " + nm)
+        conds[nm] = (f, found[0])
+    OPS = {"Lt": lambda a, b: a < b, "Le": lambda a, b: a <= b, "Gt": lambda a, b: a > b, "Ge": lambda a, b: a >= b}
+
+    def value(rf, s_, e_, p_):
+        def leaf(x):
+            x = peel(x, calls=None)
+            fl = x.fields() if x.k == "proj" else []
+            if fl and list(fl)[-1] == "start":
+                return s_
+            if fl and list(fl)[-1] == "end":
+                return e_
+            if fl and list(fl)[-1] == "processing_time":
+                return p_
+            return None
+        return OPS[rf[0]](ev(rf[1], leaf), ev(rf[2], leaf))
+    (fa, (ra, la)), (fb, (rb, lb)) = conds.values()
+    bad = None
+    try:
+        for s_, e_, p_ in itertools.product(range(0, 8), range(0, 8), range(1, 5)):
+            if value(ra, s_, e_, p_) != value(rb, s_, e_, p_):
+                bad = "later.start=%d, earlier.end=%d, processing time %d" % (s_, e_, p_)
+                break
+    except Unknown as u:
+        bad = "an expression the rule cannot evaluate (%s)" % u
+    led.check(bad is None, rid, "chain-gap-tests-agree", "%s:%d" % (fa.file, la), "same test in both directions",
+              "the lower-bound chain search ends a chain on `%s %s %s`, the upper-bound one on `%s %s %s`; they "
+              "differ for %s: one direction pushes a task past a gap it fits into (or stops too early), so the "
+              "generate-sequence variants disagree with the single-profile ones"
+              % (show(ra[1])[:50], ra[0], show(ra[2])[:30], show(rb[1])[:50], rb[0], show(rb[2])[:30], bad))
+
+
 def h12(led, rid, ctx):
     """handler ⇔ registration for the cumulative propagators (instance of C01-S5)"""
     from .C01 import s5_propagator_events
@@ -363,3 +413,4 @@ def run(ctx, led):
              "propagators; the non-incremental path rebuilds (shared with C01-S5)", h12, ctx)
     run_rule(led, "H6", "no update of the running usage reaches the construction of a profile without a capacity comparison", h6, ctx)
     run_rule(led, "H7", "GUARD-TIGHT: profile intervals are built exactly when non-empty", h7, ctx)
+    run_rule(led, "H8", "SIBLINGS: both chain searches end a chain on the same gap test", h8, ctx)
